@@ -9,6 +9,7 @@ rsync -a --exclude target --exclude .git /repo/ "$S/repo/"
 rsync -a --exclude target --exclude .git --exclude .work --exclude replays --exclude evidence /verif/ "$S/verif/"
 mkdir -p "$S/verif/replays" "$S/verif/evidence"
 sed -i "s#/repo/src/lib.rs#$S/repo/src/lib.rs#" "$S/verif/shadow/Cargo.toml"
+sed -i "s#path = \"/repo\"#path = \"$S/repo\"#" "$S/verif/miri-harness/Cargo.toml"
 export CARGO_TARGET_DIR="$S/target" CARGO_NET_OFFLINE=true DST_VERIF_DIR="$S/verif"
 python3 - "$S" "${1:-}" <<'PY'
 import sys, subprocess, os, importlib.util, json, time
